@@ -28,7 +28,10 @@ Init ==
         ann    |-> {},         \* ghost: what the cache has announced so far (fold of its PDUs)
         rounds |-> 0 ]
 
-Ops ==      [k : {"cacheresp", "eod", "notify", "cachereset", "error", "routerkey"}, cut : Cuts]
+\* "cachereset" / "cacheresetq": the cache says it cannot serve an incremental update.  A client may go on with what it has
+\* (cachereset) or ask for a new snapshot with a Reset Query (cacheresetq); in the second case what the cache sends next is
+\* a full response that REPLACES what was installed.
+Ops ==      [k : {"cacheresp", "eod", "notify", "cachereset", "cacheresetq", "error", "routerkey"}, cut : Cuts]
        \cup [k : {"announce", "withdraw"}, v : V, cut : Cuts]
        \* session loss at any point: the stream ends on a PDU boundary ("clean"), in the middle of a PDU header
        \* ("midhdr") or in the middle of a prefix PDU's body ("midpdu")
@@ -41,6 +44,7 @@ Enabled(st, op) ==
        [] op.k = "withdraw"  -> st.cst = "resp" /\ ~st.first /\ op.v \in st.ann
        [] op.k = "eod"       -> st.cst = "resp"
        [] op.k = "notify"    -> st.cst = "idle" /\ ~st.first
+       [] op.k = "cacheresetq" -> st.cst = "idle" /\ st.eod
        [] OTHER -> TRUE
 
 Step(st, op) ==
@@ -55,6 +59,9 @@ Step(st, op) ==
          \* the snapshot is installed at the first End of Data; later ones only close a round
          IF st.eod THEN [st EXCEPT !.cst = "idle", !.rounds = @ + 1]
          ELSE [st EXCEPT !.eod = TRUE, !.inst = st.buf, !.buf = {}, !.cst = "idle", !.first = FALSE, !.rounds = @ + 1]
+    [] op.k = "cacheresetq" ->
+         \* the old VRPs stay until the new snapshot has arrived; the next response is a full one
+         [st EXCEPT !.eod = FALSE, !.buf = {}, !.first = TRUE, !.ann = {}]
     [] op.k = "end" -> [st EXCEPT !.up = FALSE, !.inst = {}, !.cst = "idle"]
     [] OTHER -> st      \* Serial Notify, Cache Reset, Error Report, Router Key: no table effect
 
